@@ -4,3 +4,5 @@ import LA.Props.C01
 import LA.Props.C05
 import LA.Props.C08
 import LA.Props.C17
+import LA.Props.C02
+import LA.Props.C10
